@@ -1,10 +1,11 @@
 """C05 - the stationary bunch satisfies the Haissinski equation with its own wake (partial).
 
-Proved (Coq): force law of one step on the generated step order, scaling factor over the
-generated expression, the calculus identity.  Tie: translators Gen_StepOrder / Gen_WakeScale,
-one-step correspondence of the extracted model against the repo's ElectricField +
-WakePotentialMap + RFKickMap + DriftMap (+ FokkerPlanckMap applied, not modelled) wired as in
-main().  Explored only: the long-run residual of the Haissinski equation and the energy spread
+Proved (Coq): force law of one step on the generated step order for every bunch of an nb-bunch
+grid (over the generated update()/updateSM/apply definitions), scaling factor over the
+generated expression, the calculus identity.  Tie: translators Gen_StepOrder / Gen_WakeScale /
+Gen_WakeUpdate / Gen_KickIndex, one-step correspondence of the extracted model against the repo's
+ElectricField + WakePotentialMap + RFKickMap + DriftMap (+ FokkerPlanckMap applied, not modelled)
+wired as main() wires a filling pattern (1..3 bunches, buckets with gaps).  Explored only: the long-run residual of the Haissinski equation and the energy spread
 on the real binary (lib/haiss_explore.py)."""
 import math, os, tempfile, shutil
 from fractions import Fraction
@@ -16,17 +17,19 @@ EPS = Fraction(1, 2 ** 24)
 
 
 def check_case(ctx, c, r, m, msc, dis):
-    n, it, N = c.n, c.it, c.nmax
+    n, nb, it, N = c.n, c.nb, c.it, c.nmax
     sig0 = dict(kind="step", ztype=c.z["type"])
     fl = hc.fl
     # ---------------------------------------------------------------- exact stream: copy, offsets, table indices
     ex = []
     if r["woff"] != r["wp"] or r["force"] != r["wp"]:
         ex.append("kick-map offsets after WakePotentialMap::update differ from wakePotential()")
+    if [int(t) for t in r["sizes"][0]] != [nb * n] * 3:
+        ex.append("offset vectors of the kick maps do not hold nb*n entries")
     if [parse_c(t) for t in r["woff"][0]] != [parse_q(t) for t in m["woff"][0]]:
-        ex.append("wake offsets: model copy differs")
+        ex.append("wake offsets: model (generated update()) differs")
     if [parse_c(t) for t in r["rfoff"][0]] != [parse_q(t) for t in m["rfoff"][0]]:
-        ex.append("RF offsets differ from rnd32(tan*(xc-x))")
+        ex.append("RF offsets differ from rnd32(tan*rnd32(xc-x)) in the block of every bunch")
     if [int(t) for t in r["wtab"][0]] != [int(t, 16) for t in m["wtab"][0]]:
         ex.append("wake kick table indices differ")
     if [int(t) for t in r["rtab"][0]] != [int(t, 16) for t in m["rtab"][0]]:
@@ -42,9 +45,9 @@ def check_case(ctx, c, r, m, msc, dis):
         gi, gm = hc.parse_grid(r[g][0]), [parse_q(t) for t in m[g][0]]
         grids[g] = gi
         bad = [(i, a, b) for i, (a, b) in enumerate(zip(gi, gm)) if isinstance(a, str) or abs(a - b) > K[g] * EPS * mx]
-        if bad:
-            i, a, b = bad[0]
-            ex.append("grid after %s: cell %d impl %s model %s (tol %d*2^-24*max)" % (g, i, str(a), str(float(b)), K[g]))
+        if bad or len(gi) != len(gm):
+            i, a, b = bad[0] if bad else (min(len(gi), len(gm)), "length", 0)
+            ex.append("grid after %s: cell %d (bunch %d) impl %s model %s (tol %d*2^-24*max)" % (g, i, i // (n * n), str(a), str(float(b)), K[g]))
     if "gF" in r:
         grids["gF"] = hc.parse_grid(r["gF"][0])
     if ex:
@@ -64,18 +67,20 @@ def check_case(ctx, c, r, m, msc, dis):
     if abs(float(sz) - c.bl) > 1e-6 * c.bl or abs(float(dE1) - c.pqsize / (n - 1)) > 1e-6:
         ctx.violation("impl-oracle", "axis scale / cell width differ from sigma_z / pqsize/(n-1)", case=c.replay(),
                       observed=[float(sz), float(dE1)], expected=[c.bl, c.pqsize / (n - 1)], sig=dict(sig0, clause="axes"))
-    # ---------------------------------------------------------------- oracle: wake potential against the reference
+    # ---------------------------------------------------------------- oracle: wake potential of EVERY bunch against the reference
     W, cond, _ = hc.wake_reference(c, r)
     wp = [fl(t) for t in r["wp"][0]]
     Kw = 4 * math.log2(N) + 8 + 8       # FFT pair (DESIGN 3) + reference's own double rounding, scaling, Z*F product
     wtol = Kw * 2.0 ** -24 * cond + 1e-30
-    werr = max(abs(a - b) for a, b in zip(W, wp))
+    werr = max(abs(a - b) for a, b in zip(W, wp)) if len(W) == len(wp) else float("inf")
     if not (werr <= wtol):
-        x = max(range(n), key=lambda i: abs(W[i] - wp[i]))
-        ctx.violation("impl-oracle", "wake potential differs from scaling*c2r(Z*r2c(profile)) (sign/scale/indexing)",
-                      case=c.replay(), observed=dict(x=x, wp=wp[x]), expected=dict(W=W[x], tol=wtol),
-                      sig=dict(sig0, clause="wake-reference"))
-    # ---------------------------------------------------------------- oracle: force law (C05.1) on the implementation
+        i = max(range(len(W)), key=lambda k: abs(W[k] - wp[k])) if len(W) == len(wp) else 0
+        ctx.violation("impl-oracle", "wake potential of a bunch differs from scaling*c2r(Z*r2c(padded train)) read at its bucket "
+                      "(sign/scale/indexing/bucket)", case=c.replay(), observed=dict(bunch=i // n, x=i % n, wp=wp[i] if i < len(wp) else None),
+                      expected=dict(W=W[i], tol=wtol), sig=dict(sig0, clause="wake-reference"))
+    # the wakes of the bunches of a multi-bunch case differ (else bunch b > 0 could not tell its own wake from bunch 0's)
+    wdiff = [max(abs(W[b * n + x] - W[x]) for x in range(n)) for b in range(nb)]
+    # ---------------------------------------------------------------- oracle: force law (C05.1) on the implementation, every bunch
     t = math.tan(c.angle)
     t_impl = fl(r["tan"][0][0])
     xc = fl(r["axes"][0][4])
@@ -86,64 +91,81 @@ def check_case(ctx, c, r, m, msc, dis):
     pred = [parse_q(v) for v in m["pred"][0]]
     g0 = [Fraction(v) for v in c.data]
     rows = 0
-    if "gR" in grids and "gW" in grids and not any(isinstance(v, str) for v in grids["gR"]):
+    if "gR" in grids and "gW" in grids and not any(isinstance(v, str) for v in grids["gR"]) and len(W) == nb * n:
         # the grid after both energy kicks (whatever their order)
         last = "gR" if r_order_index(r, "gR") > r_order_index(r, "gW") else "gW"
         g2 = grids[last]
-        for x in range(n):
-            m0, m1, ab, (a, b) = hc.row_moments(g0, n, x)
-            if m0 == 0 or ab > 4 * abs(m0):
-                continue
-            ow, orf = Fraction(wp[x]), parse_c(r["rfoff"][0][x])
-            ok1, a1, b1 = hc.row_fits(n, it, ow, a, b)
-            ok2, _, _ = hc.row_fits(n, it, orf, a1, b1) if ok1 else (False, 0, 0)
-            if not (ok1 and ok2):
-                continue
-            n0, n1, _, _ = hc.row_moments(g2, n, x)
-            tol = 32 * n * EPS * (ab / abs(m0))      # <= 16 roundings per cell and kick, lever arm n
-            got = n1 / n0 - m1 / m0 if n0 != 0 else None
-            lit = t * (x - xc_want) - W[x]            # independent of the implementation's own W, offsets and zero bin
-            littol = float(tol) + wtol + 4 * n * 2.0 ** -24
-            bad = got is None or abs(got - pred[x]) > tol or abs(float(got) - lit) > littol or abs(n0 - m0) > tol * abs(m0)
-            if bad:
-                ctx.violation("impl-oracle", "row-wise mean energy index after wake+RF kick does not change by t*(x-xc) - W(x)",
-                              case=c.replay(), observed=dict(row=x, shift=None if got is None else float(got), charge_after=float(n0)),
-                              expected=dict(model=float(pred[x]), literal=lit, tol=littol, charge=float(m0)),
-                              sig=dict(sig0, clause="force-law"))
+        stop = False
+        for b in range(nb):
+            for x in range(n):
+                i = b * n + x
+                m0, m1, ab, (a, bb) = hc.row_moments(g0, n, x, b)
+                if m0 == 0 or ab > 4 * abs(m0):
+                    continue
+                ow, orf = Fraction(wp[i]), parse_c(r["rfoff"][0][i])
+                ok1, a1, b1 = hc.row_fits(n, it, ow, a, bb)
+                ok2, _, _ = hc.row_fits(n, it, orf, a1, b1) if ok1 else (False, 0, 0)
+                if not (ok1 and ok2):
+                    continue
+                n0, n1, _, _ = hc.row_moments(g2, n, x, b)
+                tol = 32 * n * EPS * (ab / abs(m0))      # <= 16 roundings per cell and kick, lever arm n
+                got = n1 / n0 - m1 / m0 if n0 != 0 else None
+                lit = t * (x - xc_want) - W[i]            # independent of the implementation's own W, offsets and zero bin
+                littol = float(tol) + wtol + 4 * n * 2.0 ** -24
+                bad = got is None or abs(got - pred[i]) > tol or abs(float(got) - lit) > littol or abs(n0 - m0) > tol * abs(m0)
+                if bad:
+                    ctx.violation("impl-oracle", "row-wise mean energy index of row x of bunch b after wake+RF kick does not change by "
+                                  "t*(x-xc) - W_b(x), W_b the bunch's own wake potential",
+                                  case=c.replay(), observed=dict(bunch=b, row=x, shift=None if got is None else float(got), charge_after=float(n0)),
+                                  expected=dict(model=float(pred[i]), literal=lit, tol=littol, charge=float(m0),
+                                                literal_with_wake_of_bunch_0=t * (x - xc_want) - W[x]),
+                                  sig=dict(sig0, clause="force-law"))
+                    stop = True
+                    break
+                rows += 1
+                nontriv = abs(lit) > 10 * littol and abs(W[i]) > 10 * littol
+                ctx.case_done(("row", c.cid, b, x), nontriv)
+                if b > 0:
+                    # a row of a later bunch whose own wake differs from bunch 0's by more than 10 tolerances
+                    ctx.case_done(("row-own-wake", c.cid, b, x), nontriv and abs(W[i] - W[x]) > 10 * littol)
+            if stop:
                 break
-            rows += 1
-            ctx.case_done(("row", c.cid, x), abs(lit) > 10 * littol and abs(W[x]) > 10 * littol)
-    # ---------------------------------------------------------------- oracle: whole grid up to the Fokker-Planck map
-    # (C05_full_step_energy): energy moment after wake, RF, drift = before + Sum_x pred(x)*charge(x)
+    # ---------------------------------------------------------------- oracle: whole grid up to the Fokker-Planck map, every bunch
+    # (C05_full_step_energy): energy moment after wake, RF, drift = before + Sum_x pred(b,x)*charge(b,x)
     if "gD" in grids and "gR" in grids and not any(isinstance(v, str) for v in grids["gD"]):
-        fits = True
-        for x in range(n):
-            m0, m1, ab, (a, b) = hc.row_moments(g0, n, x)
-            if ab == 0:
+        gr, gd = grids["gR"], grids["gD"]
+        for b in range(nb):
+            fits = True
+            for x in range(n):
+                m0, m1, ab, (a, bb) = hc.row_moments(g0, n, x, b)
+                if ab == 0:
+                    continue
+                ok1, a1, b1 = hc.row_fits(n, it, Fraction(wp[b * n + x]), a, bb)
+                ok2, _, _ = hc.row_fits(n, it, parse_c(r["rfoff"][0][b * n + x]), a1, b1) if ok1 else (False, 0, 0)
+                fits = fits and ok1 and ok2
+            for y in range(n):
+                col = [gr[(b * n + x) * n + y] for x in range(n)]
+                nzi = [x for x, v in enumerate(col) if v != 0]
+                if nzi:
+                    okc, _, _ = hc.row_fits(n, it, Fraction(fl(r["droff"][0][y])), min(nzi), max(nzi) + 1)
+                    fits = fits and okc
+            if not fits:
                 continue
-            ok1, a1, b1 = hc.row_fits(n, it, Fraction(wp[x]), a, b)
-            ok2, _, _ = hc.row_fits(n, it, parse_c(r["rfoff"][0][x]), a1, b1) if ok1 else (False, 0, 0)
-            fits = fits and ok1 and ok2
-        gr = grids["gR"]
-        for y in range(n):
-            col = [gr[x * n + y] for x in range(n)]
-            nzi = [x for x, v in enumerate(col) if v != 0]
-            if nzi:
-                okc, _, _ = hc.row_fits(n, it, Fraction(fl(r["droff"][0][y])), min(nzi), max(nzi) + 1)
-                fits = fits and okc
-        if fits:
-            e_before = sum((i % n) * v for i, v in enumerate(g0))
-            e_after = sum((i % n) * v for i, v in enumerate(grids["gD"]))
-            want = e_before + sum(pred[x] * hc.row_moments(g0, n, x)[0] for x in range(n))
-            tolg = 64 * n * EPS * sum(abs(v) for v in g0)       # three maps, <= 16 roundings each, lever arm n
-            if abs(e_after - want) > tolg or abs(sum(grids["gD"]) - sum(g0)) > 64 * EPS * sum(abs(v) for v in g0):
-                ctx.violation("impl-oracle", "energy moment of the grid after wake kick, RF kick and drift is not the one before "
-                              "plus Sum_x (t(x-xc)-W(x))*charge(x), or the charge changed",
-                              case=c.replay(), observed=dict(energy=float(e_after), charge=float(sum(grids["gD"]))),
-                              expected=dict(energy=float(want), charge=float(sum(g0)), tol=float(tolg)),
+            blk = slice(b * n * n, (b + 1) * n * n)
+            e_before = sum((i % n) * v for i, v in enumerate(g0[blk]))
+            e_after = sum((i % n) * v for i, v in enumerate(gd[blk]))
+            want = e_before + sum(pred[b * n + x] * hc.row_moments(g0, n, x, b)[0] for x in range(n))
+            sabs = sum(abs(v) for v in g0[blk])
+            tolg = 64 * n * EPS * sabs       # three maps, <= 16 roundings each, lever arm n
+            if abs(e_after - want) > tolg or abs(sum(gd[blk]) - sum(g0[blk])) > 64 * EPS * sabs:
+                ctx.violation("impl-oracle", "energy moment of bunch b after wake kick, RF kick and drift is not the one before "
+                              "plus Sum_x (t(x-xc)-W_b(x))*charge(b,x), or the bunch's charge changed",
+                              case=c.replay(), observed=dict(bunch=b, energy=float(e_after), charge=float(sum(gd[blk]))),
+                              expected=dict(energy=float(want), charge=float(sum(g0[blk])), tol=float(tolg)),
                               sig=dict(sig0, clause="full-step-energy"))
-            ctx.case_done(("fullstep", c.cid), abs(want - e_before) > 10 * tolg)
-            ctx.count("full-step-energy")
+                break
+            ctx.case_done(("fullstep", c.cid, b), abs(want - e_before) > 10 * tolg)
+            ctx.count("full-step-energy" if b == 0 else "full-step-energy:bunch>0")
     # ---------------------------------------------------------------- oracle: drift convention (content moves by -angle*p)
     dro = [fl(v) for v in r["droff"][0]]
     dq, dp = fl(r["axes"][0][0]), fl(r["axes"][0][1])
@@ -161,6 +183,10 @@ def check_case(ctx, c, r, m, msc, dis):
         ctx.violation("impl-oracle", "Fokker-Planck map applied after the drift returns non-finite values",
                       case=c.replay(), observed="nan/inf", expected="finite", sig=dict(sig0, clause="fp-finite", deriv=c.deriv))
     ctx.case_done(("step", c.cid), rows > 0)
+    if nb > 1:
+        # non-trivial multi-bunch case: the wake of some later bunch differs from bunch 0's by more than 10 wake tolerances
+        ctx.case_done(("step-multibunch", c.cid), rows > 0 and max(wdiff[1:]) > 10 * wtol)
+        ctx.count("multibunch-wakes-differ" if max(wdiff[1:]) > 10 * wtol else "multibunch-wakes-alike")
     return rows
 
 
@@ -257,10 +283,15 @@ def explore(ctx):
 
 
 def run(ctx, only=None):
-    ctx.rule = ("one-step cases: single bunch, n 12..24, it 2..4, transform length 32/48/64/128, impedance const (resistive) / "
-                "resistive wall / tabulated (resonator-like, non-zero above N/2), steps per period 30..2000, current scaled to a "
-                "potential-well distortion max|W|*delta/dtheta in 0.1..1.5, smooth blob inside a box; non-trivial row: stencils of "
-                "both kicks inside the grid and |t(x-xc)-W| and |W| > 10 tol. Long run: see explored_long_run.")
+    ctx.rule = ("one-step cases: 60 % single bunch (n 12..24), 40 % with 2 or 3 bunches (n 12..18) set up as main() sets up a filling "
+                "pattern: bucket numbers decreasing, 0..2 empty buckets, spacing_bins in [n,2n], unequal filling (shares differ by >= 25 %), "
+                "per-bunch blobs of different centre and width, transform length >= max(bucket)*spacing+n (powers of two, odd and other "
+                "lengths); it 2..4, single-bunch transform length 32/48/64/128, impedance const (resistive) / resistive wall / tabulated "
+                "(resonator-like, non-zero above N/2), steps per period 30..2000, current scaled to a potential-well distortion "
+                "max|W|*delta/dtheta in 0.1..1.5; non-trivial row (every bunch): stencils of both kicks inside the grid and |t(x-xc)-W_b| and "
+                "|W_b| > 10 tol; row-own-wake: row of a bunch b > 0 whose own wake differs from bunch 0's by > 10 tol; step-multibunch: "
+                "multi-bunch case whose wakes differ by > 10 wake tolerances. Long run: see explored_long_run (each bunch of the two-bunch "
+                "run judged on its own profile and wake).")
     coq = vp_coq.full_check("C05", ctx, fams=("haiss",))
     complete_axioms(ctx, coq)
     dis = []
@@ -287,22 +318,32 @@ def run(ctx, only=None):
         "exact-arithmetic model; float rounding carried by the exact stream (offset copy, RF offsets, table indices: bit equality) "
         "and the tolerance stream (grids: 16/40/64 * 2^-24 * max|data| after wake/RF/drift)",
         "rnd32 (Base/Float32.v) trusted, validated by the exact stream",
-        "wake reference: double-precision DFT of the implementation's padded profile with the implementation's impedance table; "
+        "wake reference: double-precision DFT of the padded multi-bunch train built here from the per-bunch projections (bunch b at "
+        "bucket_b*spacing) with the implementation's impedance table, read back at every bunch's bucket; "
         "tolerance (4 log2 N + 16) * 2^-24 * scaling * (|L_0| + 2 Sum|L_k|)",
+        "the wake potentials are inputs of the force-law model (that they are the convolution read at the bunch's bucket is C06); "
+        "RFKickMap::_calcKick and the DriftMap constructor are mirrored by hand, tied by the exact stream on every block",
         "Fokker-Planck map not modelled in this family (C04); only its effect on the global mean energy is checked",
         "PARTIAL: the long-run stationary state is explored on the binary, not proved",
     ]
-    # downgrade rule of DESIGN 2.2 for the scaling translator only: if it no longer recognises the source but the
-    # last-good generated expression (which the model and the theorems then use) still agrees, exactly, with the
-    # formula and, to 4 ulp, with getWakeScaling() on every case and with the recorded wake of the binary, the
-    # property is shown through tie 2 and the downgrade is recorded.  (No such fallback for the step order: the
-    # API harness applies the maps in the order it is given, so only the translator ties it to main().)
+    # downgrade rule of DESIGN 2.2 for the scaling translator and the update() translator: if one no longer recognises
+    # the source but the last-good generated definitions (which the model and the theorems then use) still agree with
+    # the implementation on every case - scaling: exactly with the formula and to 4 ulp with getWakeScaling(), and with
+    # the recorded wake of the binary; update(): the exact stream (offset vector of nb*n entries bit-equal to
+    # wakePotential() and to the model's generated copy, table indices of every block equal) and the grids of
+    # multi-bunch cases whose wakes differ (the block rule) - the property is shown through tie 2 and the downgrade is
+    # recorded.  (No such fallback for the step order: the API harness applies the maps in the order it is given, so
+    # only the translator ties it to main(); none for the index arithmetic of apply().)
     failed = [g for g, s in coq["gen"].items() if s.startswith("failed")]
-    if failed == ["Gen_WakeScale"] and coq["make_ok"] and coq["props"]["ok"] and not coq["forbidden"] \
+    mb_ok = any(k[0] == "step-multibunch" for k in ctx.nontrivial if isinstance(k, tuple))
+    can = {"Gen_WakeScale": True, "Gen_WakeUpdate": mb_ok and rows > 0}
+    if failed and all(can.get(g, False) for g in failed) and coq["make_ok"] and coq["props"]["ok"] and not coq["forbidden"] \
             and coq["extract_ok"] and not dis and not ctx.violations and ctx.evaluations > 0:
-        ctx.extra["translators"]["Gen_WakeScale"] = "downgraded-to-correspondence (" + coq["gen"]["Gen_WakeScale"][:200] + ")"
-        ctx.notes.append("Gen_WakeScale: translator failed, last-good expression validated against getWakeScaling() "
-                         "on every case and against the binary's recorded wake: downgraded to tie 2")
+        for g in failed:
+            ctx.extra["translators"][g] = "downgraded-to-correspondence (" + coq["gen"][g][:200] + ")"
+            ctx.notes.append("%s: translator failed, last-good definitions validated against the implementation on every "
+                             "one-step case (exact stream, multi-bunch grids) and against the binary's recorded wake: "
+                             "downgraded to tie 2" % g)
         coq = dict(coq, ok=True)
     conclude(ctx, coq, dis)
 
